@@ -1948,6 +1948,7 @@ impl Server {
                     })
                     .into(),
                 ));
+                return;
             }
             Some(RequestType::SetMaxConnectionsPerIp(limit)) => {
                 let mut sessions = self.sessions.borrow_mut();
@@ -2111,6 +2112,7 @@ impl Server {
                 notify_response = Some(udp_proxy_response);
             }
         }
+        let answered_by_a_proxy = notify_response.is_some();
         if let Some(response) = notify_response {
             push_queue(response);
         }
@@ -2165,7 +2167,17 @@ impl Server {
             Some(RequestType::DeactivateListener(ref deactivate)) => {
                 push_queue(self.notify_deactivate_listener(&req_id, deactivate));
             }
-            _other_request => {}
+            _other_request => {
+                // every request gets exactly one final answer: a request no
+                // proxy is a destination of (empty request, verbs meant for the
+                // main process) is refused instead of being silently dropped
+                if !answered_by_a_proxy {
+                    push_queue(worker_response_error(
+                        req_id,
+                        "unsupported request: not handled by a worker",
+                    ));
+                }
+            }
         };
     }
 
